@@ -310,7 +310,7 @@ theorem lexRun_docLine (a : Bool) (s : List Char) (h : s.all (· != '\n') = true
   · rw [dropWhile_all _ _ h]
     exact ⟨[], by simp [StepRes.items, StepRes.endClass], rfl⟩
   · rw [dropWhile_all _ _ h, takeWhile_all _ _ h]
-    exact ⟨[.tok (.doc s)], by simp [StepRes.items, StepRes.endClass], rfl⟩
+    exact ⟨[.tok (.doc (stripCr s))], by simp [StepRes.items, StepRes.endClass], rfl⟩
 
 /-- a doc line -/
 theorem step_docLine (s : String) (a : Bool) (h : s.toList.contains '\n' = false) :
